@@ -227,6 +227,9 @@ impl ChangesFeed {
 
 // ---- time text ---------------------------------------------------------------------------------
 impl UtcDateTime {
+    /// crates/core/src/date_time.rs `now` = `OffsetDateTime::now_utc()`: the clock — any instant
+    #[verifier::external_body]
+    pub fn now() -> (r: UtcDateTime) { unimplemented!() }
     /// crates/core/src/date_time.rs `to_rfc3339` = `OffsetDateTime::format(&Rfc3339)`
     /// (time 0.3: full sub-second precision, "Z" for UTC; `Err` for years outside
     /// 0..=9999).  ASSUMED: the text parses back to the same instant.
